@@ -165,6 +165,7 @@ def gen_wasmsel():
     if mod:
         pos = {n: i for i, n in enumerate(order)}
         for kind, op, t1, t2 in names:
+            if kind == "mem": continue          # memory round trips go through runtime calls on wasm: not a straight-line row
             fname = fname_of(kind, op, t1, t2)
             k = pos[fname]
             ps, rs = mod["types"][mod["ftypes"][k]]
